@@ -522,6 +522,93 @@ func (c *Conn) finishBdat() {
 
 	c.reset()
 }"""))
+variant("finishdata-helper-correct",
+  ("conn.go", """	code, enhancedCode, msg := dataErrorToStatus(c.Session().Data(r))
+	r.limited = false
+	_, drainErr := io.Copy(ioutil.Discard, r) // Make sure all the data has been consumed
+	c.writeResponse(code, enhancedCode, msg)""", """	code, enhancedCode, msg := dataErrorToStatus(c.Session().Data(r))
+	drainErr := c.drainData(r)
+	c.writeResponse(code, enhancedCode, msg)"""),
+  ("conn.go", "func (c *Conn) handleBdat(arg string) {", "// drainData consumes what the backend left unread of the message.\nfunc (c *Conn) drainData(r *dataReader) error {\n	r.limited = false\n	_, err := io.Copy(ioutil.Discard, r) // Make sure all the data has been consumed\n	return err\n}\n\nfunc (c *Conn) handleBdat(arg string) {"))
+variant("capabilities-helper",
+  ("conn.go", """	caps := []string{
+		"PIPELINING",""", """	c.writeCapabilities(domain)
+}
+
+// writeCapabilities sends the EHLO/LHLO reply.
+func (c *Conn) writeCapabilities(domain string) {
+	caps := []string{
+		"PIPELINING","""))
+variant("upgradetls-helper",
+  ("conn.go", """	c.conn = tlsConn
+	c.init()
+
+	// Reset all state and close the previous Session.
+	// This is different from just calling reset() since we want the Backend to
+	// be able to see the information about TLS connection in the
+	// ConnectionState object passed to it.
+	if session := c.Session(); session != nil {
+		session.Logout()
+		c.setSession(nil)
+	}
+	c.helo = ""
+	c.didAuth = false
+	c.reset()
+}""", """	c.switchToTLS(tlsConn)
+}
+
+// switchToTLS installs the TLS connection and forgets everything learned in plaintext.
+func (c *Conn) switchToTLS(tlsConn *tls.Conn) {
+	c.conn = tlsConn
+	c.init()
+
+	if session := c.Session(); session != nil {
+		session.Logout()
+		c.setSession(nil)
+	}
+	c.helo = ""
+	c.didAuth = false
+	c.reset()
+}"""))
+variant("aborttransfer-helper",
+  ("conn.go", """func (c *Conn) Close() error {
+	c.locker.Lock()
+	defer c.locker.Unlock()
+
+	if c.bdatPipe != nil {
+		c.bdatPipe.CloseWithError(ErrDataReset)
+		c.bdatPipe = nil
+	}
+""", """// abortTransfer fails an open chunked transfer. The caller holds c.locker.
+func (c *Conn) abortTransfer() {
+	if c.bdatPipe != nil {
+		c.bdatPipe.CloseWithError(ErrDataReset)
+		c.bdatPipe = nil
+	}
+}
+
+func (c *Conn) Close() error {
+	c.locker.Lock()
+	defer c.locker.Unlock()
+
+	c.abortTransfer()
+"""))
+variant("closelisteners-helper",
+  ("server.go", """	var err error
+	s.locker.Lock()
+	for _, l := range s.listeners {
+		if lerr := l.Close(); lerr != nil && err == nil {
+			err = lerr
+		}
+	}
+	s.locker.Unlock()
+
+	connDone := make(chan struct{})""", """	s.locker.Lock()
+	err := s.closeListeners()
+	s.locker.Unlock()
+
+	connDone := make(chan struct{})"""),
+  ("server.go", "// Shutdown gracefully shuts down the server without interrupting any", "// closeListeners closes every listener and returns the first error. The caller holds s.locker.\nfunc (s *Server) closeListeners() error {\n	var err error\n	for _, l := range s.listeners {\n		if lerr := l.Close(); lerr != nil && err == nil {\n			err = lerr\n		}\n	}\n	return err\n}\n\n// Shutdown gracefully shuts down the server without interrupting any"))
 if sys.argv[1:] == ['--export']:
     out = [{"id": "benign-" + n, "edits": [{"file": f, "old": o, "new": w} for f, o, w in V[n]]} for n in V]
     json.dump(out, open('/verif/liveness/benign.json', 'w'), indent=1)
